@@ -203,6 +203,9 @@ type Options struct {
 	// OnThread runs the program on a thread created with NewThread from the
 	// (context-less) main state; the context, if any, is attached to that thread.
 	OnThread bool
+	// MainContext (with OnThread): the main state has a context of its own, which is never done; the
+	// thread's context replaces the one it inherited from the main state.
+	MainContext bool
 }
 
 func defaultLuaOptions() lua.Options {
@@ -262,6 +265,9 @@ func NewHost(o Options) *Host {
 		return 0
 	}))
 	if o.OnThread {
+		if o.MainContext && o.WithContext {
+			L.SetContext(NewSimContext())
+		}
 		th, _ := L.NewThread()
 		if o.WithContext {
 			h.Ctx = NewSimContext()
